@@ -4,6 +4,7 @@ import LiteFSVerif.Driver.CodecSpecD
 import LiteFSVerif.Driver.EngineSpecD
 import LiteFSVerif.Driver.LockSpecD
 import LiteFSVerif.Driver.ClusterSpecD
+import LiteFSVerif.Driver.ProxySpecD
 
 /-! `specd`: runs only the independent specifications (never imports Gen/ or Model/),
     so it still builds when the regenerated definitions no longer do. -/
@@ -22,6 +23,7 @@ def main (args : List String) : IO UInt32 := do
   | ["import-spec"] => loop stdin stdout EngineSpec.step {}; return 0
   | ["replica-spec"] => loop stdin stdout EngineSpec.step {}; return 0
   | ["cluster-spec"] => loop stdin stdout ClusterSpec.step {}; return 0
+  | ["proxy-spec"] => loop stdin stdout ProxySpec.step {}; return 0
   | ["codec-spec"] => loop stdin stdout CodecSpec.step (); return 0
   | _ =>
     IO.eprintln "usage: specd <suite>"
